@@ -191,7 +191,7 @@ def run_property(prop, tier, seed):
         for fid, info in unit.fns.items():
             kind = info["kind"]
             fl = fails_by_fid.get(fid, [])
-            relevant = prop in info["props"]
+            relevant = prop in info["props"] or any(prop in (c.props or []) for c in info["clauses"].values())
             if kind == "stub":
                 o = info["obj"]
                 stubs.append({"unit": uname, "function": fid, "file": o.file,
@@ -240,7 +240,10 @@ def run_property(prop, tier, seed):
                 cl = info["clauses"].get(f["label"])
                 if cl is None and not f["label"].startswith("safety"):
                     named_asserts.add((fid, f["label"]))
-                props = (cl.props if (cl is not None and cl.props) else info["props"])
+                if cl is not None and cl.props:
+                    props = cl.props
+                else:   # a failed safety condition / invariant leaves every clause of the function unproved
+                    props = set(info["props"]).union(*[set(c.props or []) for c in info["clauses"].values()])
                 if prop not in props:
                     continue
                 failed_labels.add(f["label"])
